@@ -100,6 +100,44 @@ def walk_shallow(fnode):
         stack.extend(ast.iter_child_nodes(n))
 
 
+class _UnFString(ast.NodeTransformer):
+    """f'{a} x{b:+}'  ->  '{} x{:+}'.format(a, b): one spelling of string interpolation for every rule (exactly the same string is
+    built); an f-string whose format specification itself contains fields is left as it is"""
+
+    def visit_JoinedStr(self, n):
+        self.generic_visit(n)
+        tmpl, args = "", []
+        for v in n.values:
+            if isinstance(v, ast.Constant) and isinstance(v.value, str):
+                tmpl += v.value.replace("{", "{{").replace("}", "}}")
+            elif isinstance(v, ast.FormattedValue):
+                spec = ""
+                if v.format_spec is not None:
+                    if isinstance(v.format_spec, ast.Constant) and isinstance(v.format_spec.value, str):
+                        spec = ":" + v.format_spec.value          # (already folded by the visit of the nested f-string)
+                    elif isinstance(v.format_spec, ast.JoinedStr) and all(isinstance(x, ast.Constant) for x in v.format_spec.values):
+                        spec = ":" + "".join(x.value for x in v.format_spec.values)
+                    else:
+                        return n
+                conv = "" if v.conversion in (-1, None) else "!" + chr(v.conversion)
+                tmpl += "{" + conv + spec + "}"
+                args.append(v.value)
+            else:
+                return n
+        if not args:
+            return ast.copy_location(ast.Constant(value=tmpl.replace("{{", "{").replace("}}", "}")), n)
+        call = ast.Call(func=ast.Attribute(value=ast.Constant(value=tmpl), attr="format", ctx=ast.Load()), args=args, keywords=[])
+        return ast.fix_missing_locations(ast.copy_location(call, n))
+
+
+def parse_normalised(src, filename="<unknown>"):
+    tree = ast.parse(src, filename=filename)
+    if "f'" in src or 'f"' in src or "F'" in src or 'F"' in src:
+        tree = _UnFString().visit(tree)
+        ast.fix_missing_locations(tree)
+    return tree
+
+
 class Program:
     def __init__(self, root=None, package="cnfgen"):
         self.root = root or repo_root()
@@ -130,7 +168,7 @@ class Program:
                 with open(path, "r", encoding="utf-8") as fh:
                     src = fh.read()
                 try:
-                    tree = ast.parse(src, filename=path)
+                    tree = parse_normalised(src, filename=path)
                 except SyntaxError as e:
                     raise AnalysisError("cannot parse %s: %s" % (path, e))
                 m = Module(rel, path, src, tree)
@@ -166,7 +204,7 @@ class Program:
                     rsrc = fh.read()
                 if rsrc != m.source:
                     try:
-                        rtrees[m.name] = ast.parse(rsrc)
+                        rtrees[m.name] = parse_normalised(rsrc)
                     except SyntaxError:
                         pass
         if not rtrees:
@@ -272,7 +310,7 @@ class Program:
         if rsrc == m.source:
             return
         try:
-            rtree = ast.parse(rsrc, filename=rp)
+            rtree = parse_normalised(rsrc, filename=rp)
         except SyntaxError:
             return
         from .fnf import fnf, module_pure_helpers
